@@ -52,6 +52,7 @@ type FuncContract struct {
 	CrashInv   *Clause
 	Notes      []string
 	Reveal     []string
+	Uses       []string
 }
 
 type SpecFn struct {
@@ -187,7 +188,7 @@ func readContractLines(path string, requirePrefix bool) ([]rawLine, string, erro
 var clauseKeywords = map[string]bool{"requires": true, "ensures": true, "invariant": true, "modifies": true, "pure": true,
 	"trusted": true, "may_panic": true, "loop": true, "func": true, "extern": true, "functype": true, "lemma": true,
 	"sort": true, "fn": true, "axiom": true, "ghost": true, "pkgframe": true, "guarded": true, "lockinv": true,
-	"acquires": true, "releases": true, "opaque": true, "reveal": true, "crashinv": true, "note": true, "recfn": true, "props": true}
+	"acquires": true, "releases": true, "opaque": true, "reveal": true, "uses": true, "crashinv": true, "note": true, "recfn": true, "props": true}
 
 func firstWord(s string) (string, string) {
 	s = strings.TrimSpace(s)
@@ -344,6 +345,10 @@ func parseDirectives(lines []rawLine, pkgPath string, spec *SpecSet, contracts m
 			}
 		case "sort":
 			spec.Sorts[strings.TrimSpace(d.rest)] = true
+		case "uses":
+			if cur != nil {
+				cur.Uses = append(cur.Uses, splitNames(d.rest)...)
+			}
 		case "reveal":
 			if curLemma != nil {
 				curLemma.Reveal = append(curLemma.Reveal, splitNames(d.rest)...)
